@@ -26,7 +26,8 @@ RULE = (
     "add order permuted, XMI round trip, JSON round trip. Variants that must compare DIFFERENT: one primitive value, "
     "one offset, one reference target (to a structure of another type/offsets/index status/view), one array element, one "
     "annotation moved to another view, one structure indexed/unindexed. A small extra stream has two FSArrays "
-    "containing each other (outside the premise; rendering must not raise, model compared with hash := len(elements)). "
+    "containing each other and a chain of 26 FSArrays each holding the next one twice (outside the premise; rendering must "
+    "finish and not raise, model compared with hash := len(elements)). "
     "Texts are taken with default options, covered_text=False, mark_indexed=False and exclude_types={one type}. "
     "Type-system history: in every third pair (and in a directed stream of 8 small pairs over {Base, Sub <: Base}) the "
     "TypeSystem object is not complete when it is first used: the base CAS restricted to the features that exist so far is "
@@ -39,7 +40,7 @@ TRUSTED = [
     "Coq 8.16.1 kernel and vm_compute; Print Assumptions of every theorem in Props/C20.v: closed under the global context "
     "(the external functions below are explicit premises, not axioms)",
     "hand-written model coq/Comparable.v of cassis/util.py (grouping, _compare_fs, anchors, disambiguation counter, index "
-    "mark by identity, view suffix, row rendering) on top of coq/Reach.v (Cas._find_all_fs) and coq/Heap.v / Schema.v",
+    "mark by identity, view suffix, row rendering; an array met inside an array is referred to by its anchor) on top of coq/Reach.v (Cas._find_all_fs) and coq/Heap.v / Schema.v",
     "csv module: quoting/escaping of a row of cell texts is not modelled; assumed injective on rows (rows are compared after "
     "parsing the text back with csv.reader); csv writes None as the empty field and every other cell with str()",
     "list.sort with a comparison function: a section parameter with the contract `sort_contract` (permutation; sorted when "
@@ -715,6 +716,24 @@ def two_cycle(r, cassis):
     return {"ts": tspec, "cas": cs, "kind": "cycle2", "var": None, "xt": None, "outside": True}
 
 
+def array_chain(r, depth=25):
+    """A chain of FSArrays each holding the next one twice (lengths made pairwise different by padding with None, so that
+    the content hash len(elements) orders them; outside the premise like the two-cycle).  Before fix 23e9ca1 an array met
+    inside an array was expanded in place: 2^depth copies of the last array, i.e. the rendering does not finish (the
+    engine reports a case that does not finish as a failing input).  Now every nested array appears as its anchor."""
+    tspec = [{"name": "a.Holder", "super": scen.TOP, "feats": [
+        {"name": "arr", "range": scen.FS_ARRAY, "elem": None, "multi": r.choice([True, False, None])},
+        {"name": "n", "range": T + "Integer", "elem": None, "multi": None}]}]
+    objs = [{"o": 1, "type": "a.Holder", "id": 10, "slots": {"arr": {"ref": 2}, "n": {"i": r.randint(0, 5)}}}]
+    for i in range(depth):
+        objs.append({"o": 2 + i, "type": scen.FS_ARRAY, "id": 11 + i,
+                     "slots": {"elements": {"list": [{"ref": 3 + i}, {"ref": 3 + i}] + [None] * i}}})
+    objs.append({"o": 2 + depth, "type": scen.FS_ARRAY, "id": 11 + depth,
+                 "slots": {"elements": {"list": [{"ref": 1}] + [None] * (depth + 1)}}})
+    cs = {"views": [{"name": "_InitialView", "text": [97, 98], "mime": None}], "objs": objs, "members": [[0, 1]]}
+    return {"ts": tspec, "cas": cs, "kind": "chain", "var": None, "xt": None, "outside": True}
+
+
 def bytearray_roundtrip(r, kind):
     """A separately listed ByteArray (held by a multipleReferencesAllowed feature or nested in an FSArray) and a round
     trip: the JSON reader used to return `bytes` elements, which the renderer could not handle (fix 83a4bf1)."""
@@ -912,6 +931,8 @@ def generate(rng, tier):
     pr = random.Random("late:" + ",".join(map(str, rng.getstate()[1][:8])))
     for k in range(8):
         yield late_feature_case(pr)
+    for k in range(2 if tier != "search" else 0):
+        yield array_chain(pr)
     while made < n and attempts < 60 * n:
         attempts += 1
         tspec = gen_ts(rng)
